@@ -63,7 +63,9 @@ var sqlSchema = map[string]*m.Type{
 var hostileStrings = []string{"", "a", "it's", `"`, `""`, `\`, `\\`, `a"b`, `a\"b`, `" OR 1=1 --`, `") OR ("1"="1`, "`x`", "--", "/* */", "x AND y", "1 OR 1", "NULL", "line\nbreak", "tab\t", "nul\x00", "\x1b[0m", "é", "日本語", "😀", "%_", "\\\"", "'", "a\\", "`", "IN (1, 2)", "from_unixtime(0)", " ", "\x7f"}
 
 func sqlNum(t *rapid.T) float64 {
-	return pick2(t, []float64{0, math.Copysign(0, -1), 1e15, 1e16, 9007199254740992, 123456789012345680, 1, -1, 42, 0.5, -2.5, 1e-7, 123456.789, 9007199254740993, 9223372036854775808, 1e19, 1e21, -1e20, 1e-9, 3, 100, 2147483648, 0.1, 1e15 + 0.5, 5e-324, 1.797e308})
+	return pick2(t, []float64{0, math.Copysign(0, -1), 1e15, 1e16, 9007199254740992, 123456789012345680, 1, -1, 42, 0.5, -2.5, 1e-7, 123456.789, 9007199254740993, 9223372036854775808, 1e19, 1e21, -1e20, 1e-9, 3, 100, 2147483648, 0.1, 1e15 + 0.5, 5e-324, 1.797e308,
+		// doubles that are exactly a float32 (a float32 host field widened by conversion)
+		float64(float32(0.1)), float64(float32(19.99)), float64(float32(1) / 3), 18446744073709551616, float64(float32(16777217)), float64(float32(1e-7))})
 }
 
 func sqlValue(t *rapid.T, ty *m.Type) *m.Val {
